@@ -9,6 +9,8 @@
 -/
 import NemoVerif.Lemmas.Stream
 import NemoVerif.Lemmas.StreamAsIs
+import NemoVerif.Lemmas.StreamUsage
+import NemoVerif.Generated.C18
 namespace NemoVerif.C18
 open NemoVerif.Stream
 
@@ -175,5 +177,132 @@ example :
     (run ⟨[], [], ["S".toList]⟩ ["abSx".toList] .empty).completion = "ab".toList ∧
     delivered (run ⟨"P:".toList, [], ["ST".toList]⟩ ["P:abS".toList, "Tx".toList] .llmEnd) = "ab".toList ∧
     delivered (run ⟨[], [], ["x".toList, "b".toList]⟩ ["abx".toList] .empty) = "a".toList := by decide
+
+/-! ### `pipe_to`: what the consumer sees -/
+
+/-- After the first end marker the producer forwards nothing but end markers (invariant `J`), and the piped,
+    unconfigured handler keeps everything up to the first end marker: the text on the consumer's queue IS the
+    text the producer delivered.  No hypothesis: every configuration, chunk list (empty chunks included) and
+    end protocol. -/
+theorem pipe_consumer_view (cfg : Cfg) (cs : List Str) (e : EndProto) :
+    deliveredOf (pipeTarget (run cfg cs e).out) = delivered (run cfg cs e) := by
+  rw [pipeTarget_eq]
+  exact deliveredOf_takeThrough (run_okOut cfg cs e)
+
+/-- `chunk_invariant` seen from the consumer of a piped handler -/
+theorem pipe_chunk_invariant (cfg : Cfg) (hS : NonemptyStops cfg.stop) (text : Str) (cs : List Str) (e : EndProto)
+    (hflat : cs.flatten = text) (hne : ∀ c ∈ cs, c ≠ []) :
+    deliveredOf (pipeTarget (run cfg cs e).out) = spec cfg text e :=
+  (pipe_consumer_view cfg cs e).trans (chunk_invariant cfg hS text cs e hflat hne).1
+
+/-! ### The library's own use of the handler (`Models/StreamUsage.lean`, repaired variant)
+
+`usageRun true true site cs a b endPos` = the operation sequence of the single-call mode
+(generate_intent_steps_message + generate_bot_message) for the tokens `cs` and the schedule `(a, b, endPos)`:
+buffering, `wait_top_k_nonempty_lines(k)` resuming after `a` tokens, `set_pattern`, `b` tokens in between,
+`set_pipe_to`, `.stop = [...]`, `disable_buffering()`, the remaining tokens, `on_llm_end` (at any of its three
+possible positions). -/
+
+open NemoVerif.StreamUsage
+
+/-- USAGE STATEMENT.  For every call-site configuration with non-empty stop sequences, every LLM text, every
+    chunking into non-empty tokens and every schedule the library can produce (the waiter resumes once the k-th
+    non-empty line is complete and the next one has begun): the user's handler receives `spec` of the text that
+    follows the first k non-empty lines — the same for all chunkings and schedules —, the inner handler's
+    `completion` is that text, and the stream is finished (`wait()` returns). -/
+theorem usage_chunk_invariant (site : Site) (hS : NonemptyStops site.stop) (text : Str) (cs : List Str)
+    (a b endPos : Nat) (r0 : Str)
+    (hflat : cs.flatten = text) (hne : ∀ c ∈ cs, c ≠ [])
+    (hend : endPos = 0 ∨ ((endPos = 1 ∨ endPos = 2) ∧ cs.drop (a + b) = []))
+    (hsplit : dropTopK site.k none (cs.take a).flatten = some r0) (hr0 : r0 ≠ []) :
+    ∃ rest, dropTopK site.k none text = some rest ∧
+      deliveredItems (consumerItems (usageRun true true site cs a b endPos)) = spec site.cfg rest .llmEnd ∧
+      (usageRun true true site cs a b endPos).st.completion = spec site.cfg rest .llmEnd ∧
+      (usageRun true true site cs a b endPos).st.finished = true := by
+  obtain ⟨hst, hpipe⟩ := usageRun_st site cs a b endPos r0 hne hend hsplit
+  have htext : text = (cs.take a).flatten ++ (cs.drop a).flatten := by
+    rw [← hflat, ← List.flatten_append, List.take_append_drop]
+  have hrest : (r0 ++ ((cs.drop a).take b).flatten) ++ (cs.drop (a + b)).flatten = r0 ++ (cs.drop a).flatten := by
+    rw [List.append_assoc, ← List.flatten_append, ← List.drop_drop, List.take_append_drop]
+  refine ⟨r0 ++ (cs.drop a).flatten, ?_, ?_, ?_, ?_⟩
+  · rw [htext]; exact dropTopK_append _ _ _ _ _ hsplit
+  · have hci := pipe_chunk_invariant site.cfg hS _ ((r0 ++ ((cs.drop a).take b).flatten) :: cs.drop (a + b)) .llmEnd rfl
+      (by
+        intro c hc
+        rcases List.mem_cons.1 hc with rfl | hc
+        · simp [hr0]
+        · exact hne c (List.mem_of_mem_drop hc))
+    simp only [List.flatten_cons] at hci
+    rw [hrest] at hci
+    simp only [consumerItems, hpipe, List.drop_zero, hst]
+    exact hci
+  · have hci := chunk_invariant site.cfg hS _ ((r0 ++ ((cs.drop a).take b).flatten) :: cs.drop (a + b)) .llmEnd rfl
+      (by
+        intro c hc
+        rcases List.mem_cons.1 hc with rfl | hc
+        · simp [hr0]
+        · exact hne c (List.mem_of_mem_drop hc))
+    simp only [List.flatten_cons] at hci
+    rw [hrest] at hci
+    rw [hst]; exact hci.2
+  · rw [hst]; exact endLlm_finished _ _
+
+/-- the call sites of the single-call mode as extracted from generation.py by the translator -/
+def generatedSites : List Site :=
+  (NemoVerif.Generated.C18.sites.filter (fun s => s.2.2.2.2.2)).map
+    (fun s => { pfx := s.2.1.toList, suffix := s.2.2.1.toList, stop := s.2.2.2.1.map String.toList, k := s.2.2.2.2.1 })
+
+/-- the literals generation.py configures today satisfy the hypotheses of `usage_chunk_invariant`
+    (finite fact about generated data, `decide`): no empty stop sequence, k > 0, and there IS such a site -/
+theorem generated_sites_ok : generatedSites ≠ [] ∧ ∀ s ∈ generatedSites, (∀ p ∈ s.stop, p ≠ []) ∧ s.k > 0 := by
+  decide
+
+/-- `usage_chunk_invariant` for the configurations the library really uses -/
+theorem usage_chunk_invariant_generated (site : Site) (hs : site ∈ generatedSites) (text : Str) (cs : List Str)
+    (a b endPos : Nat) (r0 : Str) (hflat : cs.flatten = text) (hne : ∀ c ∈ cs, c ≠ [])
+    (hend : endPos = 0 ∨ ((endPos = 1 ∨ endPos = 2) ∧ cs.drop (a + b) = []))
+    (hsplit : dropTopK site.k none (cs.take a).flatten = some r0) (hr0 : r0 ≠ []) :
+    ∃ rest, dropTopK site.k none text = some rest ∧
+      deliveredItems (consumerItems (usageRun true true site cs a b endPos)) = spec site.cfg rest .llmEnd :=
+  let ⟨rest, h1, h2, _⟩ := usage_chunk_invariant site (generated_sites_ok.2 site hs).1 text cs a b endPos r0 hflat hne hend hsplit hr0
+  ⟨rest, h1, h2⟩
+
+/-- non-vacuity: the completion of tests/test_streaming.py::test_streaming_single_llm_call, FakeLLM's tokens,
+    one token between `set_pattern` and `disable_buffering()` (the schedule the unrepaired code garbles) -/
+example :
+    let site : Site := ⟨"  \"".toList, "\"".toList, ["\"\n".toList], 2⟩
+    let cs := ["  express ", "greeting\nbot ", "express ", "greeting\n ", " ", "\"Hi, ", "how ", "are ", "you?\""].map String.toList
+    dropTopK site.k none (cs.take 6).flatten = some "  \"Hi, ".toList ∧
+      deliveredItems (consumerItems (usageRun true true site cs 6 1 0)) = "Hi, how are you?".toList ∧
+      deliveredItems (consumerItems (usageRun false false site cs 6 1 0)) = "how   \"Hi, are you?".toList := by
+  decide
+
+/-- The usage as it is in the tree without fixes/C18-streaming-buffered-usage.diff (`fx = false`, stop assigned
+    after `disable_buffering()`) is NOT schedule-invariant — three kernel-checked witnesses (`decide`), one per
+    open finding: (1) a token between `set_pattern` and `disable_buffering()` is put in front of the buffered
+    text; (2) `on_llm_end` while buffering: the pattern is not removed and the stream never finishes;
+    (3) the text behind the closing quote inside the buffered chunk is delivered because `.stop` is set too late. -/
+theorem as_is_usage_counterexamples :
+    let site : Site := ⟨"  \"".toList, "\"".toList, ["\"\n".toList], 2⟩
+    let cs := ["  express ", "greeting\nbot ", "express ", "greeting\n ", " ", "\"Hi, ", "how ", "are ", "you?\""].map String.toList
+    let t2 := "u\nb\n  \"Hi\"\nbot x".toList
+    deliveredItems (consumerItems (usageRun false false site cs 6 0 0)) = "Hi, how are you?".toList ∧
+    deliveredItems (consumerItems (usageRun false false site cs 6 1 0)) = "how   \"Hi, are you?".toList ∧
+    deliveredItems (consumerItems (usageRun false false site cs 9 0 1)) = "  \"Hi, how are you?\"".toList ∧
+    (usageRun false false site cs 9 0 1).st.finished = false ∧
+    deliveredItems (consumerItems (usageRun false false site [t2] 1 0 0)) = "Hi\"\nbot x".toList ∧
+    (usageRun false false site [t2] 1 0 0).st.completion = "Hi".toList ∧
+    deliveredItems (consumerItems (usageRun true true site [t2] 1 0 0)) = "Hi".toList := by
+  decide
+
+/-- The direct mode of generate_bot_message (pattern set on the user's own handler, the LLM streams into it,
+    the utterance is pushed once more after `on_llm_end`): the handler ends exactly like one plain run, so
+    `chunk_invariant` applies and the second push changes nothing. -/
+theorem direct_chunk_invariant (site : Site) (text : Str) (cs : List Str) (again : Str)
+    (hflat : cs.flatten = text) (hne : ∀ c ∈ cs, c ≠ []) :
+    delivered (execOps true (directOps site cs again) H0).st = spec ⟨site.pfx, site.suffix, []⟩ text .llmEnd ∧
+      (execOps true (directOps site cs again) H0).st.completion = spec ⟨site.pfx, site.suffix, []⟩ text .llmEnd := by
+  rw [directRun_st site cs again hne]
+  exact chunk_invariant ⟨site.pfx, site.suffix, []⟩ (by intro s h; cases h) text cs .llmEnd hflat hne
 
 end NemoVerif.C18
